@@ -143,7 +143,21 @@ def parse_diags(out, crate_dir):
             continue
         code = (m.get("code") or {}).get("code")
         spans = m.get("spans") or []
-        files = set(os.path.basename(s["file_name"])[:-3] for s in spans if s["file_name"].startswith("src/") and s["file_name"] != "src/main.rs")
+        files = set()
+
+        def walk(sp, depth=0):
+            # an error inside `drive!` has its primary span in main.rs; the call site (the module) is up the expansion chain
+            if sp is None or depth > 8:
+                return
+            fn = sp.get("file_name", "")
+            if fn.startswith("src/") and fn != "src/main.rs" and fn.endswith(".rs"):
+                files.add(os.path.basename(fn)[:-3])
+            walk((sp.get("expansion") or {}).get("span"), depth + 1)
+        for sp in spans:
+            walk(sp)
+        for ch in m.get("children") or []:
+            for sp in ch.get("spans") or []:
+                walk(sp)
         rendered = m.get("rendered") or m.get("message")
         from_derive = "derive macro `TryFrom`" in rendered or any(
             (s.get("expansion") or {}).get("macro_decl_name", "").startswith("#[derive(TryFrom") for s in spans)
@@ -157,24 +171,48 @@ def parse_diags(out, crate_dir):
 
 
 def build_and_run(chk, cases, name=CRATE):
-    """-> (failed {id: diags}, outputs {id: parsed line})"""
+    """-> (failed {id: diags}, outputs {id: parsed line}).  A module the compiler rejects is dropped (and
+    reported by the caller); when the diagnostics name no module the crate is bisected by module."""
     failed = {}
-    live = list(cases)
-    for attempt in range(4):
-        main, files = G.crate_sources(live)
+    budget = [14]
+
+    def build(subset):
+        if budget[0] <= 0:
+            raise common.BuildError("the generated C12 crate still fails after %d rebuilds" % 14)
+        budget[0] -= 1
+        main, files = G.crate_sources(subset)
         d = common.make_crate(name, main, extra_files=files)
         rc, out = common.cargo(d, ["build", "--message-format=json", "--quiet"])
-        if rc == 0:
-            break
-        bad, other = parse_diags(out, d)
-        if not bad:
-            raise common.BuildError("the generated C12 crate does not build and no module is to blame:\n%s\n%s" %
-                                    ("\n".join(map(str, other))[:2000], out[-1500:]))
-        failed.update(bad)
-        live = [c for c in live if c["id"] not in bad]
-        chk.log("crate build: %d module(s) rejected by rustc, rebuilding without them" % len(bad))
-    else:
-        raise common.BuildError("the generated C12 crate still fails after removing the rejected modules")
+        return rc, out, d
+
+    def settle(subset):
+        """returns the sub-list of `subset` that builds together, recording the rest in `failed`"""
+        live = list(subset)
+        while live:
+            rc, out, d = build(live)
+            if rc == 0:
+                return live
+            bad, other = parse_diags(out, d)
+            bad = {k: v for k, v in bad.items() if any(c["id"] == k for c in live)}
+            if bad:
+                failed.update(bad)
+                live = [c for c in live if c["id"] not in bad]
+                chk.log("crate build: %d module(s) rejected by rustc, rebuilding without them" % len(bad))
+                continue
+            if len(live) == 1:
+                failed[live[0]["id"]] = [(None, "; ".join(map(str, other))[:400] or "rejected (no span in the module)", False)]
+                return []
+            chk.log("crate build fails and no diagnostic names a module: bisecting %d modules" % len(live))
+            h = len(live) // 2
+            a, b = settle(live[:h]), settle(live[h:])
+            live = a + b
+            if not a or not b:
+                continue
+        return live
+
+    live = settle(cases)        # (the top-level call always ends on a successful build of exactly `live`)
+    if not live:
+        return failed, {}
     if failed:
         # control: the rejected modules without the derive must compile, otherwise the generator is at fault
         ctl = [c for c in cases if c["id"] in failed]
@@ -230,6 +268,12 @@ OTHER_HINTS = ["C", "Rust", "align(4)", "align(16)", "packed", "packed(2)", "tra
 def repr_cases(rng, n):
     out = [[], [["u8"], ["u8"]], [["u8", "i16"]], [["u8"], ["C"], ["i16"]], [["C"], ["C"]], [["u8", "u8"]],
            [["C", "u8", "align(4)", "i64"]], [["align(4)"], ["usize"], ["packed(2)"]], [["i128"], ["align(2)", "u8"]]]
+    # every integer type in every position of one list and of several attributes, next to hints rustc accepts on enums
+    for k, t in enumerate(G.INTS):
+        o1 = ["C", "align(4)", "align(16)", "packed", "Rust", "packed(2)"][k % 6]
+        o2 = ["align(8)", "C", "packed", "align(2)", "C", "Rust"][k % 6]
+        out += [[[t]], [[t, o1]], [[o1, t]], [[o1, t, o2]], [[t, o1, o2]], [[o1, o2, t]],
+                [[t], [o1]], [[o1], [t]], [[o1], [t], [o2]], [[o1, o2], [t, o2]], [[t, o1], [o2]]]
     for _ in range(n):
         attrs = []
         for _ in range(rng.choice([0, 1, 1, 1, 2, 2, 3])):
@@ -239,6 +283,44 @@ def repr_cases(rng, n):
             attrs.append(a)
         out.append(attrs)
     return out
+
+
+def repr_selection_tie(chk, inproc, tier):
+    """random and systematic `#[repr(...)]` hint lists: real ReprInt::parse_attrs (through `expand`) vs the model's
+    repr_of, and vs the property's reading (a unique integer hint, wherever it stands, is the repr; none = isize)"""
+    rcs = repr_cases(chk.rng, 150 if tier == "quick" else 1500)
+    rreqs = [{"cmd": "expand", "derive": "TryFrom", "item": "#[try_from(repr)] %s enum E { A, B }" %
+              " ".join("#[repr(%s)]" % ", ".join(a) for a in attrs)} for attrs in rcs]
+    rres = common.run_jsonl(inproc, rreqs)
+    rterms = common.coq_eval(["Verif.C12.Model"], ["repr_of %s" % G.coq_attrs({"repr_attrs": a}) for a in rcs], tag="c12c")
+    for attrs, rq, r, t in zip(rcs, rreqs, rres, rterms):
+        chk.count(("repr", json.dumps(attrs)), len(attrs) > 0)
+        as_case = {"id": "rp", "repr_attrs": attrs, "generics": [], "inproc_only": True,
+                   "variants": [{"name": "A", "fields": "unit", "discr": None}, {"name": "B", "fields": "unit", "discr": None}]}
+        v = inproc_view(r)
+        if v is not None:
+            m = re.match(r"derive_more::core::convert::TryFrom<(\w+)", v["trait"])
+            real = m.group(1) if m else "?"
+        elif "err" in r:
+            real = None
+        else:
+            chk.violation("expander-rejects", {"case": as_case, "rust": rq["item"], "response": r}, "expander fails on repr hints %s" % attrs)
+            continue
+        ints = [h for a in attrs for h in a if h in G.INTS]
+        pos = "none" if not ints else ("several" if len(ints) > 1 else
+                                       [("last" if a[-1] == ints[0] else "first" if a[0] == ints[0] else "middle") for a in attrs if ints[0] in a][0])
+        chk.bump("repr_hint_int_position:" + pos)
+        # the property's reading: a unique integer hint is the repr, none means isize
+        if len(ints) <= 1 and real != (ints[0] if ints else "isize"):
+            chk.violation("repr-selection", {"case": as_case, "rust": rq["item"], "expander": real, "expected": ints[0] if ints else "isize",
+                                             "response": r.get("err")},
+                          "%s: the expansion is `impl TryFrom<%s>` but the representation type is %s" %
+                          (rq["item"], real, ints[0] if ints else "isize"))
+        model = None if t == "None" else t[1].lower()
+        if model != real:
+            chk.violation("tie-model-repr", {"case": as_case, "rust": rq["item"], "model": model, "code": real, "response": r.get("err")},
+                          "repr_of disagrees with ReprInt::parse_attrs on %s" % attrs)
+    chk.bump("repr_hint_lists", len(rcs))
 
 
 # ------------------------------------------------------------------ the check
@@ -280,6 +362,7 @@ def run(tier, seed, replay):
             G.coq_variants(c), G.coq_attrs(c)) for c in cases]
     pre_terms = common.coq_eval(["Verif.C12.Model"], pre, batch=max(4, len(pre) // 16 + 1), tag="c12a")
     predicted_header_bad = set()
+    wrong_repr = set()
     for c, t in zip(cases, pre_terms):
         v = views[c["id"]]
         if v is None:
@@ -294,8 +377,10 @@ def run(tier, seed, replay):
             chk.violation("tie-model-repr", {"case": c, "model": model_repr, "code": real_repr},
                           "model and expander select different reprs for %s" % c["repr_attrs"])
         if real_repr != lrepr:
-            chk.violation("repr-selection", {"case": c, "expander": real_repr, "language": lrepr},
-                          "the expander implements TryFrom<%s> but the enum's representation is %s" % (real_repr, lrepr))
+            chk.violation("repr-selection", {"case": c, "rust": G.enum_item(c), "expander": real_repr, "language": lrepr},
+                          "%s: the expansion is `impl TryFrom<%s>` but the enum's representation type is %s" %
+                          (G.enum_item(c, with_derive=False).replace("\n", " "), real_repr, lrepr))
+            wrong_repr.add(c["id"])       # `E: TryFrom<%s>` does not exist: keep the module out of the crate
         # header
         mp, mt, ms = header_strings(hdr, lrepr)
         if (mp, mt, ms) != (v["params"], v["trait"], v["self"]):
@@ -318,12 +403,24 @@ def run(tier, seed, replay):
             chk.violation("tie-model-consts", {"case": c, "model": model_consts, "code": real_consts, "text": v["consts"]},
                           "model and expander disagree on the generated constants of %s" % c["id"])
 
-    # ---- 3. the real macro, compiled and run
-    failed, outs = build_and_run(chk, cases)
+    # ---- 3. repr selection on arbitrary hint lists (in-process only: rustc rejects most of these enums)
+    if not replay:
+        repr_selection_tie(chk, inproc, tier)
+
+    # ---- 4. the real macro, compiled and run (modules whose expansion is for another repr, or that the
+    #         expander refused, are already reported and stay out)
+    runnable = [c for c in cases if c["id"] not in wrong_repr and views[c["id"]] is not None and not c.get("inproc_only")]
+    try:
+        failed, outs = build_and_run(chk, runnable)
+    except common.BuildError as e:
+        if not chk.violations:
+            raise
+        chk.notes.append("the generated crate could not be built after the violations above were found: %s" % str(e)[:600])
+        failed, outs, runnable = {}, {}, []
     common.cleanup_scratch(CRATE)
 
-    # ---- 4. the model on the run-time points
-    live = [c for c in cases]
+    # ---- 5. the model on the run-time points
+    live = list(runnable)
     exprs = []
     for c in live:
         o = outs.get(c["id"])
@@ -407,35 +504,6 @@ def run(tier, seed, replay):
     chk.cov["traces_validated_against_impl"] = n_tie
     chk.bump("compiled_and_run", len(outs))
     chk.bump("rejected_by_rustc", len(failed))
-
-    # ---- 5. repr selection on arbitrary hint lists (in-process only: rustc rejects most of these enums)
-    if not replay:
-        rcs = repr_cases(chk.rng, 150 if tier == "quick" else 1500)
-        rreqs = [{"cmd": "expand", "derive": "TryFrom", "item": "#[try_from(repr)] %s enum R { A, B }" %
-                  " ".join("#[repr(%s)]" % ", ".join(a) for a in attrs)} for attrs in rcs]
-        rres = common.run_jsonl(inproc, rreqs)
-        rterms = common.coq_eval(["Verif.C12.Model"], ["repr_of %s" % G.coq_attrs({"repr_attrs": a}) for a in rcs], tag="c12c")
-        for attrs, r, t in zip(rcs, rres, rterms):
-            chk.count(("repr", json.dumps(attrs)), len(attrs) > 0)
-            v = inproc_view(r)
-            if v is not None:
-                m = re.match(r"derive_more::core::convert::TryFrom<(\w+)", v["trait"])
-                real = m.group(1)
-            elif "err" in r:
-                real = None
-            else:
-                chk.violation("expander-rejects", {"attrs": attrs, "response": r}, "expander fails on repr hints %s" % attrs)
-                continue
-            model = None if t == "None" else t[1].lower()
-            if model != real:
-                chk.violation("tie-model-repr", {"attrs": attrs, "model": model, "code": real, "response": r.get("err")},
-                              "repr_of disagrees with ReprInt::parse_attrs on %s" % attrs)
-            # the property's reading: a unique integer hint is the repr, none means isize
-            ints = [h for a in attrs for h in a if h in G.INTS]
-            if len(ints) <= 1 and real != (ints[0] if ints else "isize"):
-                chk.violation("repr-selection", {"attrs": attrs, "expander": real},
-                              "repr hints %s select %s" % (attrs, real))
-        chk.bump("repr_hint_lists", len(rcs))
 
     if getattr(chk, "proof_broken", False) and not chk.violations:
         chk.violation("proof-broken", chk.proof_failure, "a C12 proof obligation no longer checks: %s" %
